@@ -166,6 +166,19 @@ func deepHash(h hash.Hash64, v reflect.Value, depth int, seen map[uintptr]bool) 
 		for i := 0; i < v.Len(); i++ {
 			deepHash(h, v.Index(i), depth+1, seen)
 		}
+		// the SPARE CAPACITY of a package-level slice is package state too: a scratch buffer that is cut back to
+		// length 0 after every call keeps what the call wrote (and hands it to the next caller)
+		if c := v.Cap(); c > v.Len() && c-v.Len() <= 1<<20 {
+			switch v.Type().Elem().Kind() {
+			case reflect.Bool, reflect.Int, reflect.Int8, reflect.Int16, reflect.Int32, reflect.Int64, reflect.Uint, reflect.Uint8,
+				reflect.Uint16, reflect.Uint32, reflect.Uint64, reflect.Uintptr, reflect.Float32, reflect.Float64:
+				wr(h, uint64(c))
+				full := v.Slice(0, c)
+				for i := v.Len(); i < c; i++ {
+					deepHash(h, full.Index(i), depth+1, seen)
+				}
+			}
+		}
 	case reflect.Map:
 		wr(h, uint64(v.Len()))
 		if v.IsNil() {
